@@ -53,17 +53,60 @@ def child_main(req, wfd):
             time.sleep(10)
         emit(["E", event, [p[len(rootstr):] for p in paths if p.startswith(rootstr)], mutating])
 
-    fn = _folder.copy_folder_from_global_to_local if req["fn"] == "folder" else _image_folder.copy_imagefolder_from_global_to_local
     from pathlib import Path
     sys.addaudithook(hook)
+
+    def one_call(r):
+        fn = _folder.copy_folder_from_global_to_local if r["fn"] == "folder" else _image_folder.copy_imagefolder_from_global_to_local
+        res = fn(global_path=Path(r["g"]), local_path=Path(r["l"]), relative_path=r["rel"], num_workers=r.get("workers", 0))
+        return {k: getattr(res, k) for k in ("was_copied", "was_deleted", "source_format", "was_zip", "was_zip_classwise") if hasattr(res, k)}
+
     try:
-        res = fn(global_path=Path(req["g"]), local_path=Path(req["l"]), relative_path=req["rel"], num_workers=req.get("workers", 0))
-        state["armed"] = False
-        emit(["R", {k: getattr(res, k) for k in ("was_copied", "was_deleted", "source_format", "was_zip", "was_zip_classwise") if hasattr(res, k)}])
+        if "seq" in req:
+            # several calls in ONE process (state that survives between calls, e.g. memoised helpers); the harness may
+            # re-pack the source between two calls
+            results = []
+            for step in req["seq"]:
+                if "repack" in step:
+                    state["armed"] = False
+                    _repack(Path(step["repack"]["src"]), step["repack"]["to"])
+                    state["armed"] = True
+                else:
+                    results.append(one_call(step["call"]))
+            state["armed"] = False
+            emit(["R", {"results": results}])
+        else:
+            res = one_call(req)
+            state["armed"] = False
+            emit(["R", res])
     except BaseException as e:  # noqa
         state["armed"] = False
         import traceback
         emit(["X", f"{type(e).__name__}: {e} :: " + "".join(traceback.format_tb(e.__traceback__)[-2:])[-600:]])
+
+
+def _repack(src, to):
+    """harness-side change of the source format between two calls (not part of the code under test)"""
+    import shutil
+    import zipfile
+    if to == "zips":
+        files = sorted(p for p in src.rglob("*") if p.is_file())
+        dirs = sorted(p for p in src.rglob("*") if p.is_dir())
+        with zipfile.ZipFile(src / "batch_0.zip.tmp", "w") as z:
+            for p in dirs:
+                z.writestr(str(p.relative_to(src)) + "/", b"")  # keep (empty) directories
+            for p in files:
+                z.write(p, str(p.relative_to(src)))
+        for p in sorted(src.iterdir()):
+            if p.name == "batch_0.zip.tmp":
+                continue
+            shutil.rmtree(p) if p.is_dir() and not p.is_symlink() else p.unlink()
+        (src / "batch_0.zip.tmp").rename(src / "batch_0.zip")
+    else:
+        for zp in sorted(src.glob("*.zip")):
+            with zipfile.ZipFile(zp) as z:
+                z.extractall(src)
+            zp.unlink()
 
 
 def call(req):
